@@ -422,6 +422,23 @@ def vm_case(ctx, rng, wd, i):
             ctx.check("vm_saved", B.shape == A.shape and np.array_equal(B, A), key + "/raw/outputfile/content",
                       "saved raw matrix differs from the returned one", info)
             os.remove(p)
+    # --- history: the caller moves the particles of frame k IN PLACE (same Snapshots object, same frame index, same step) and asks
+    # again: the matrix must be the one of the configuration the object holds now (compared with a fresh one-frame object)
+    if frames > 1 and s.positions.flags.writeable and i % 3 != 1:
+        k2 = (k + 1) % frames
+        s2 = snaps.snapshots[k2]
+        frac2 = (s2.positions - s2.boxbounds[:, 0]) / s2.boxlength
+        if inf["origin"] != "hoomd":
+            s.positions[...] = s.boxbounds[:, 0] + frac2 * s.boxlength
+            oku, Au = ctx.call(key + "/raw/updated_in_place", VolumeMatrix, snaps, d, k, h, False, "", data=info)
+            fresh = Snapshots(nsnapshots=1, snapshots=[SingleSnapshot(timestep=s.timestep, nparticle=N, particle_type=s.particle_type.copy(),
+                                                                      positions=s.positions.copy(), boxlength=s.boxlength.copy(),
+                                                                      boxbounds=s.boxbounds.copy(), realbounds=None, hmatrix=s.hmatrix.copy())])
+            okf, Af = ctx.call(key + "/raw/single", VolumeMatrix, fresh, d, 0, h, False, "", data=info)
+            if oku and okf:
+                ctx.close("vm_updated_in_place", np.asarray(Au), np.asarray(Af), key + "/updated_in_place", rtol=1e-9, scale=float(np.abs(Af).max()),
+                          what="matrix after frame k was updated in place vs the matrix of a fresh object holding the same configuration", data=info, n=1)
+            return
     # --- transformed variant: frame selection + saved file only
     if i % 2 == 1:
         outfile2 = os.path.join(wd, f"vmt{i}") if i % 4 == 1 else ""
